@@ -542,6 +542,119 @@ func (in *Interp) valuesEqual(a, b Value, t types.Type) *sym.Term {
 	panic(unsupported(fmt.Sprintf("equality of %T and %T", a, b)))
 }
 
+// deepEqual compares two values of type t by content (pointers and slices are followed):
+// the equality of what an encoder would write for them. Used to compare stored blobs.
+func (in *Interp) deepEqual(a, b Value, t types.Type) *sym.Term {
+	f := in.F
+	switch x := a.(type) {
+	case *Cell:
+		y, _ := b.(*Cell)
+		if x == nil || y == nil {
+			return f.Bool(x == nil && y == nil)
+		}
+		if x == y {
+			return f.True
+		}
+		if x.Big != nil || y.Big != nil {
+			xb, yb := x.Big, y.Big
+			if xb == nil {
+				xb = f.Int(0)
+			}
+			if yb == nil {
+				yb = f.Int(0)
+			}
+			return f.Eq(xb, yb)
+		}
+		if x.Ext != nil || y.Ext != nil {
+			return f.Bool(x.Ext == y.Ext)
+		}
+		var et types.Type = x.T
+		if p, ok := t.Underlying().(*types.Pointer); ok {
+			et = p.Elem()
+		}
+		return in.deepEqual(in.load(x), in.load(y), et)
+	case SliceVal:
+		y := b.(SliceVal)
+		if (x.Arr == nil && x.Ext == nil) || (y.Arr == nil && y.Ext == nil) {
+			return f.Bool(x.Arr == nil && x.Ext == nil && y.Arr == nil && y.Ext == nil)
+		}
+		if x.Ext != nil || y.Ext != nil {
+			bx, _ := x.Ext.(*blob)
+			by, _ := y.Ext.(*blob)
+			if bx == nil || by == nil || bx.kind != by.kind || bx.typ == nil || by.typ == nil || !types.Identical(bx.typ, by.typ) {
+				return f.Bool(x.Ext == y.Ext)
+			}
+			return in.blobEqual(bx, by)
+		}
+		if x.Len != y.Len {
+			return f.False
+		}
+		var et types.Type
+		if st, ok := t.Underlying().(*types.Slice); ok {
+			et = st.Elem()
+		}
+		cs := []*sym.Term{}
+		for i := 0; i < x.Len; i++ {
+			e := et
+			if e == nil {
+				e = in.scell(x, i).T
+			}
+			cs = append(cs, in.deepEqual(in.sget(x, i), in.sget(y, i), e))
+		}
+		return f.And(cs...)
+	case *StructVal:
+		y := b.(*StructVal)
+		st := t.Underlying().(*types.Struct)
+		cs := []*sym.Term{}
+		for i := range x.F {
+			cs = append(cs, in.deepEqual(x.F[i], y.F[i], st.Field(i).Type()))
+		}
+		return f.And(cs...)
+	case *ArrayVal:
+		y := b.(*ArrayVal)
+		at := t.Underlying().(*types.Array)
+		cs := []*sym.Term{}
+		for i := range x.E {
+			cs = append(cs, in.deepEqual(x.E[i], y.E[i], at.Elem()))
+		}
+		return f.And(cs...)
+	case IfaceVal:
+		y, ok := b.(IfaceVal)
+		if !ok {
+			return f.False
+		}
+		if x.T == nil || y.T == nil {
+			return f.Bool(x.T == nil && y.T == nil)
+		}
+		if !types.Identical(x.T, y.T) {
+			return f.False
+		}
+		return in.deepEqual(x.V, y.V, x.T)
+	}
+	return in.valuesEqual(a, b, t)
+}
+
+// blobEqual: equality of two encoded values of the same kind and type.
+func (in *Interp) blobEqual(x, y *blob) *sym.Term {
+	if x.ser == y.ser {
+		return in.F.True
+	}
+	if x.val == nil || y.val == nil {
+		return in.F.False
+	}
+	if x.kind == "entrybin" {
+		// the entry encoding carries ChainID, ExtIDs and Content only
+		sx, sy := x.val.(*StructVal), y.val.(*StructVal)
+		st := x.typ.Underlying().(*types.Struct)
+		cs := []*sym.Term{}
+		for _, k := range []int{1, 3, 4} {
+			cs = append(cs, in.deepEqual(sx.F[k], sy.F[k], st.Field(k).Type()))
+		}
+		return in.F.And(cs...)
+	}
+	return in.deepEqual(x.val, y.val, x.typ)
+}
+
 func (in *Interp) symStrEq(s *SymStr, c string) *sym.Term {
 	f := in.F
 	if len(s.B) != len(c) {
